@@ -545,6 +545,18 @@ def recover(d, ledger_path, result_path, deliver, dry_ledger=None, kill_again_fi
             ri = await s.cmd(b"APPEND inbox {43+}\r\nFrom: p@q\r\nX-CID: recprobe2\r\n\r\nprobe body\r\n")
             if not ri.ok and "inbox" in [k.lower() for k, v in state.items() if v is not None]:
                 bad("append-to-inbox-after-recovery-failed", ri.brief())
+            elif ri.ok:
+                # what is appended now is a new message with the flags it was given (none): it inherits nothing from a
+                # message whose number it may have taken over
+                rs2 = await s.cmd("EXAMINE inbox")
+                rf3 = await s.cmd("UID FETCH 1:* (UID FLAGS BODY.PEEK[HEADER.FIELDS (X-CID)])") if rs2.ok else None
+                if rf3 is not None and rf3.ok:
+                    for n, dd in rf3.fetches():
+                        if cid_of_fetch(dd) == "recprobe2":
+                            fl = sorted(f for f in (canon_flag(x) for x in dd.get("FLAGS", [])) if f not in ("\\Recent", "unseen"))
+                            res["checks"] = (res.get("checks") or 0) + 1
+                            if fl:
+                                bad("append-after-recovery-inherits-flags", f"INBOX: a message appended without flags after the restart has {fl}")
         except Exception as e:  # noqa: BLE001
             bad("post-recovery-probe-raised", repr(e))
         try:
